@@ -9,6 +9,15 @@ APPS = {"S6a": 16777251, "Gx": 16777238, "Rx": 16777236, "SWx": 16777265, "Gy": 
 LOCAL_HOST, LOCAL_REALM = "app.local.example", "local.example"
 
 
+def local_host(i):
+    """every connection entry has its own local identity (entry 0 keeps the historical name)"""
+    return LOCAL_HOST if i == 0 else "app%d.site%d.example" % (i, i)
+
+
+def local_realm(i):
+    return LOCAL_REALM if i == 0 else "site%d.example" % i
+
+
 class StubApp:
     """stands for bromelia.setup.Diameter below a Worker"""
 
@@ -41,7 +50,7 @@ class AppHarness:
         lines = ["api_version: v1", "name: bvm-app", "spec:"]
         for i, name in enumerate(app_names):
             lines += ["  - mode: client", "    applications:", "      - vendor_id: VENDOR_ID_3GPP", "        app_id: DIAMETER_APPLICATION_%s" % name,
-                      "    local:", "      hostname: %s" % LOCAL_HOST, "      realm: %s" % LOCAL_REALM, "      ip_address: 127.0.0.1", "      port: %d" % (3868 + i),
+                      "    local:", "      hostname: %s" % local_host(i), "      realm: %s" % local_realm(i), "      ip_address: 127.0.0.1", "      port: %d" % (3868 + i),
                       "    peer:", "      hostname: peer%d.remote.example" % i, "      realm: remote.example", "      ip_address: 127.0.0.%d" % (10 + i), "      port: 3868",
                       "    watchdog_timeout: 30"]
         with open(path, "w") as f:
